@@ -143,6 +143,73 @@ theorem write_input_roundtrip_sessions (soft : Bool) (ss1 ss2 : List (List Item)
   rw [(append_after_existing [] [] ss1 ss2).2.2.2.1, writtenFile_eq]
   exact (roundtrip_core soft (ss1 ++ ss2) hne hok hlf).1
 
+/-! ### target variables typed by DEFSTR/DEFINT/DEFSNG/DEFDBL -/
+
+/-- **Which type INPUT# / LINE INPUT# / WRITE# give a variable** (Memory.complete_name): an explicit sigil
+decides, whatever the DEFtype table says; a name without sigil has the DEFtype of its initial letter (case
+folded); and after `DEFxxx a-b` exactly the letters a..b have the new type. -/
+theorem var_type_from_completed_name (tab : DefTab) (c l : Nat) (mid : Bytes) :
+    (isSigil l = true → varIsStr tab (c :: mid ++ [l]) = decide (l = 36)) ∧
+    (isSigil l = false → varIsStr tab (c :: mid ++ [l]) = decide (tab.getD (upperByte c - 65) 33 = 36)) ∧
+    (isSigil c = false → varIsStr tab [c] = decide (tab.getD (upperByte c - 65) 33 = 36)) ∧
+    (∀ sg a b, tab.length = 26 → b < 26 → isSigil l = false →
+      varIsStr (defType tab sg a b) (c :: mid ++ [l]) =
+        if a ≤ upperByte c - 65 ∧ upperByte c - 65 ≤ b then decide (sg = 36) else varIsStr tab (c :: mid ++ [l])) := by
+  have hbare : ∀ t : DefTab, isSigil l = false →
+      varIsStr t (c :: mid ++ [l]) = decide (t.getD (upperByte c - 65) 33 = 36) := by
+    intro t hs
+    rw [List.cons_append, varIsStr_snoc]; simp [hs]
+  refine ⟨?_, hbare tab, ?_, ?_⟩
+  · intro hs
+    rw [List.cons_append, varIsStr_snoc]; simp [hs]
+  · intro hs
+    simp [varIsStr, completeName, hs]
+  · intro sg a b hlen hb hs
+    rw [hbare _ hs, hbare _ hs, (defType_spec tab sg a b (upperByte c - 65) hlen hb).2]
+    split <;> rfl
+
+/-- **The round trip with variables**: every WRITE# item is a variable (written name, content) and is read back
+into a variable whose completed name has the same type (by sigil or by DEFtype); then INPUT# returns the items
+written, EOF exactly after the last. -/
+theorem write_input_roundtrip_vars (soft : Bool) (tab : DefTab) (vss : List (List (Bytes × Bytes × Bytes)))
+    (hne : ∀ vs ∈ vss, vs ≠ [])
+    (htype : ∀ vs ∈ vss, ∀ v ∈ vs, varIsStr tab v.2.2 = varIsStr tab v.1)
+    (hok : ∀ vs ∈ vss, ∀ v ∈ vs, itemOk (itemOfVar tab v.1 v.2.1))
+    (hlf : soft = false → ∀ vs ∈ vss, ∀ v ∈ vs, 10 ∉ (itemOfVar tab v.1 v.2.1).bytes) :
+    (readVars tab (vss.flatten.map (·.2.2))
+      (openIn soft (writtenFile (vss.map (List.map (fun v => itemOfVar tab v.1 v.2.1)))))).1
+    = expect (vss.flatten.map (fun v => itemOfVar tab v.1 v.2.1)) := by
+  have hf : (vss.map (List.map (fun v => itemOfVar tab v.1 v.2.1))).flatten
+      = vss.flatten.map (fun v => itemOfVar tab v.1 v.2.1) := by simp [List.map_flatten]
+  have hk : (vss.flatten.map (·.2.2)).map (varIsStr tab)
+      = (vss.flatten.map (fun v => itemOfVar tab v.1 v.2.1)).map Item.isStr := by
+    rw [List.map_map, List.map_map]
+    apply List.map_congr_left
+    intro v hv
+    obtain ⟨vs, hvs, hv'⟩ := List.mem_flatten.mp hv
+    simp [itemOfVar_isStr, htype vs hvs v hv']
+  have h := roundtrip_core_words soft (vss.map (List.map (fun v => itemOfVar tab v.1 v.2.1)))
+    (by intro st hst; obtain ⟨vs, hvs, rfl⟩ := List.mem_map.mp hst; simpa using hne vs hvs)
+    (by intro st hst it hit; obtain ⟨vs, hvs, rfl⟩ := List.mem_map.mp hst
+        obtain ⟨v, hv, rfl⟩ := List.mem_map.mp hit; exact hok vs hvs v hv)
+    (by intro hs st hst it hit; obtain ⟨vs, hvs, rfl⟩ := List.mem_map.mp hst
+        obtain ⟨v, hv, rfl⟩ := List.mem_map.mp hit; exact hlf hs vs hvs v hv)
+  rw [hf] at h
+  unfold readVars
+  rw [hk]; exact h
+
+/-- LINE INPUT# into a variable whose completed name is not a string is a Type mismatch and consumes nothing;
+into a string variable (by sigil or DEFSTR) it is LINE INPUT# -/
+theorem line_input_var_type (tab : DefTab) (r : Rd) (name : Bytes) :
+    (varIsStr tab name = false → r.lineInputVar tab name = (.error Gen.E.type_mismatch, r)) ∧
+    (varIsStr tab name = true → r.lineInputVar tab name = r.lineInput) := by
+  constructor <;> intro h <;> simp [Rd.lineInputVar, h]
+
+/-- non-vacuity: DEFSTR R-S makes `R0` and `s1(` string variables, leaves `N0` numeric, and `R0%` stays numeric -/
+example : varIsStr (defType defaultTab 36 17 18) [82, 48] = true ∧ varIsStr (defType defaultTab 36 17 18) [115] = true ∧
+    varIsStr (defType defaultTab 36 17 18) [78, 48] = false ∧ varIsStr (defType defaultTab 36 17 18) [82, 48, 37] = false ∧
+    varIsStr defaultTab [82, 48] = false := by decide
+
 /-! ### non-vacuity -/
 
 example : strOk [32, 44, 65, 13, 10, 255, 9] := by
